@@ -1348,7 +1348,7 @@ def _pg_finish(c):
             bits[i // 8] |= b << (i % 8)
         blk = _uleb_py(((len(lv) + 7) // 8) << 1 | 1) + bytes(bits)
         head = len(blk).to_bytes(4, "little") + blk
-    c["page"] = (head + bytes([c["w"]]) + body).hex()
+    c["page"] = (head + (b"" if c.get("rle_bool") else bytes([c["w"]])) + body).hex()
 
 
 def _pg2_finish(c):
@@ -1362,7 +1362,7 @@ def _pg2_finish(c):
             bits[i // 8] |= b << (i % 8)
         head = _uleb_py(((len(lv) + 7) // 8) << 1 | 1) + bytes(bits)
     c["dlen"] = len(head)
-    c["page"] = (head + bytes([c["w"]]) + body).hex()
+    c["page"] = (head + (b"" if c.get("rle_bool") else bytes([c["w"]])) + body).hex()
 
 
 def _pg2_oracle(c, r, so, guard):
@@ -1403,11 +1403,15 @@ def _pg_cls(c):
             "shape": c["meta"]["shape"]}
 
 
+def _pg_spec(c):
+    return ("hyb_dec_len" if c.get("rle_bool") else "hyb_dec", 0, c["w"], len(c["meta"]["want"]), _inp(c))
+
+
 FNS["page_v1_dict"] = dict(model=lambda c: ("uleb_enc", 0), tagged=False, views=_info_views("none"),
-                           spec=lambda c: ("hyb_dec", 0, c["w"], len(c["meta"]["want"]), _inp(c)),
+                           spec=_pg_spec,
                            oracle=_pg_oracle, safe=lambda c: True, cls=_pg_cls, trivial=lambda c: False)
 FNS["page_v2_dict"] = dict(model=lambda c: ("uleb_enc", 0), tagged=False, views=_info_views("none"),
-                           spec=lambda c: ("hyb_dec", 0, c["w"], len(c["meta"]["want"]), _inp(c)),
+                           spec=_pg_spec,
                            oracle=_pg2_oracle, safe=lambda c: True, cls=_pg_cls, trivial=lambda c: False)
 EXTRA_GENERATORS.append(gen_callers)
 
@@ -1476,6 +1480,37 @@ def gen_callers_dispatch(rng, quick):
                             adts.append("int32")           # more categories declared than the page's own code width
                         for adt in adts:
                             cases.append(dict(base, fn="page_v2_dict", nval=nval, use_cat=True, adt=adt, meta=dict(meta)))
+    # BOOLEAN values in RLE encoding (Encoding.RLE): no width byte - the width is 1 by definition - but a 4-byte length in
+    # front of the runs, which both readers step over before they enter the same chains
+    for selfmade in (False, True):
+        for shape in (("rle",), ("bp",), ("rle", "bp", "rle")):
+            for optional in (False, True):
+                for n in ((9, 40) if quick else (1, 8, 9, 17, 40, 200)):
+                    levels = [1] * n if not optional else [0 if (i % 4 == 1) else 1 for i in range(n)]
+                    nval = sum(levels)
+                    bits = [rng.randrange(2) for _ in range(nval)]
+                    if shape == ("rle",):
+                        runs = [["rle", nval - nval // 2, 1], ["rle", nval // 2, 0]]
+                    elif shape == ("bp",):
+                        runs = [["bp", bits]]
+                    else:
+                        runs = [["rle", 2, 1], ["bp", bits[:8]], ["rle", 1, 0], ["bp", bits[8:max(nval - 3, 8)]]]
+                    want, left, kept = [], nval, []
+                    for rr in runs:
+                        vals = [rr[2]] * rr[1] if rr[0] == "rle" else list(rr[1])
+                        vals = vals[:left]
+                        if not vals:
+                            continue
+                        kept.append(["rle", len(vals), rr[2]] if rr[0] == "rle" else ["bp", vals])
+                        want += vals
+                        left -= len(vals)
+                    if len(want) != nval or any(r_[0] == "bp" and len(r_[1]) % 8 for r_ in kept[:-1]):
+                        continue
+                    base = {"w": 1, "n": n, "optional": optional, "stream": "main", "enc": ["hyb_enc_len", 1, kept], "trail": False,
+                            "selfmade": selfmade, "rle_bool": True}
+                    meta = {"want": want, "levels": levels, "shape": "rle-bool:" + "+".join(shape)}
+                    cases.append(dict(base, fn="page_v1_dict", meta=dict(meta)))
+                    cases.append(dict(base, fn="page_v2_dict", nval=nval, use_cat=False, meta=dict(meta)))
     return cases
 
 
